@@ -113,21 +113,34 @@ Fixpoint oracle (u : udb) (pool : list (Z * Z)) (has_exact : bool) (o : ostate) 
   | _, _ => 2
   end.
 
-(* State: reads and preloading calls on plain data *)
-Fixpoint st_oracle (has_exact : bool) (s : udb) (h : list sop) (t : list ans) : Z :=
+(* State: reads and preloading calls on plain data. [zeroed]: addresses for which a preloading call
+   wrote 0 over a non-zero slot of the underlying data (known-finding class 10: has_storage keeps
+   forwarding the underlying database's "true") *)
+Fixpoint st_oracle_z (has_exact : bool) (u : udb) (zeroed : list Z) (s : udb) (h : list sop) (t : list ans) : Z :=
   match h, t with
   | [], [] => 0
   | op :: h', x :: t' =>
     let '(s', y) := st_spec_step s op in
-    let ok :=
+    let here :=
       match op, x with
-      | SQuery (QStorage _ _), APanic => true    (* storage of an account that was never loaded: outside the API contract *)
-      | SQuery (QHas _), _ => negb has_exact || ans_eqb x y
-      | _, _ => ans_eqb x y
+      | SQuery (QStorage _ _), APanic => 0    (* storage of an account that was never loaded: outside the API contract *)
+      | SQuery (QHas a), _ =>
+          if negb has_exact || ans_eqb x y then 0
+          else match x, y with
+               | ABool true, ABool false => if memz a zeroed then 10 else 2
+               | _, _ => 2
+               end
+      | _, _ => if ans_eqb x y then 0 else 2
       end in
-    if ok then st_oracle has_exact s' h' t' else 2
+    let zeroed' := match op with
+                   | SInsAccount a _ l => if zero_writes u a l then a :: zeroed else zeroed
+                   | _ => zeroed
+                   end in
+    if here =? 0 then st_oracle_z has_exact u zeroed' s' h' t' else here
   | _, _ => 2
   end.
+Definition st_oracle (has_exact : bool) (s : udb) (h : list sop) (t : list ans) : Z :=
+  st_oracle_z has_exact s [] s h t.
 Fixpoint st_final (u : udb) (s : sstate) (h : list sop) : sstate :=
   match h with [] => s | o :: r => st_final u (fst (st_step u s o)) r end.
 Definition keys_sorted (m : gmap Z Z) : list Z := merge_sort Z.le (map fst (map_to_list m)).
